@@ -509,11 +509,11 @@ func Histogram(count, dividers, x, weights []float64) []float64 {
 	if weights != nil && len(x) != len(weights) {
 		panic("stat: slice length mismatch")
 	}
-	if count == nil {
-		count = make([]float64, len(dividers)-1)
-	}
 	if len(dividers) < 2 {
 		panic("histogram: fewer than two dividers")
+	}
+	if count == nil {
+		count = make([]float64, len(dividers)-1)
 	}
 	if len(count) != len(dividers)-1 {
 		panic("histogram: bin count mismatch")
